@@ -19,3 +19,23 @@ package otlp
 //@   site call spanToJson #1:
 //@     assert [span-carries-the-service-of-its-own-resource] arg1 == service && (service == "" || uf("isServiceNameOf", bool, service, resourceSpans))
 //@ end
+
+// C16 (identifiers an event carries are stored intact): a log record's own
+// trace id / span id (the protobuf fields) are kept whenever they are present;
+// the like-named attributes are a fallback for the id that is MISSING only —
+// each id on its own.  Ghosts otlpTrace / otlpSpan: the hex text of the record's
+// own ids.
+//@ ghostdecl otlpTrace string
+//@ ghostdecl otlpSpan string
+//@ func extractLogRecord
+//@   props C16
+//@   assumecalleerequires
+//@   site callret hex.EncodeToString #1:
+//@     ghostset ghost(0, "otlpTrace") = result
+//@   site callret hex.EncodeToString #2:
+//@     ghostset ghost(0, "otlpSpan") = result
+//@   loop 1:
+//@     invariant [ids-untouched-while-attributes-are-read] record.TraceId == ghost(0, "otlpTrace") && record.SpanId == ghost(0, "otlpSpan")
+//@   ensures [own-trace-id-is-kept] implies(result2 == nil && ghost(0, "otlpTrace") != "", result0.TraceId == ghost(0, "otlpTrace"))
+//@   ensures [own-span-id-is-kept] implies(result2 == nil && ghost(0, "otlpSpan") != "", result0.SpanId == ghost(0, "otlpSpan"))
+//@ end
